@@ -593,8 +593,7 @@ def _run_chunk(args):
     for T, v in pairs:
         for nm in names:
             try:
-                with guard.time_limit(guard.CASE_SECONDS):
-                    f, n = CHECKS[nm](T, v, M, rng)
+                f, n = guard.run_case(lambda: CHECKS[nm](T, v, M, rng))
             except guard.CaseTimeout:
                 f, n = [fail(nm, T, v, 'does not terminate within %d s on this case' % guard.CASE_SECONDS)], 1
             except Exception as ex:
@@ -608,7 +607,7 @@ def _run_chunk(args):
 
 
 def run(names, tier, seed, jobs=16):
-    pairs = U.universe(seed=seed, tier=tier, include_long=False)
+    pairs = U.universe(seed=seed, tier=tier, include_long=('native' in names))
     chunks = [pairs[i::jobs * 2] for i in range(jobs * 2)]
     chunks = [c for c in chunks if c]
     ctx = mp.get_context('fork')
